@@ -15,7 +15,7 @@ Proof. exact static_data. Qed.
 
 (** get_by_index is the RFC lookup, for EVERY integer (0, negatives, past the end included).
     (The bound on |i| is CPython's: formatting a larger integer into the error message would
-    itself fail; decoded indices are below 2^148, see C04.) *)
+    itself fail; decoded indices are below 2^141, see C04.) *)
 Theorem C14_get_by_index : forall t i, Z.abs i < 10 ^ 4300 ->
   HeaderTable_get_by_index t i =
     match lookup i t.(entries) with Some e => Ok e | None => Err InvalidTableIndex end.
